@@ -174,6 +174,24 @@ SchemaDeclItems(S, cfg, env) ==
   UNION {UNION {IF AliasApplies(S, tg, n) THEN AliasItems(S, cfg, env, tg, n) ELSE {} : n \in AllTypeNames(S, cfg)} : tg \in Targets}
   \cup UNION {RepresentativeItems(S, env, n) : n \in AllTypeNames(S, cfg)}
 
+(* ----------------------------------------------- enum runtime objects *)
+(* With emitSchemaRuntime the schema module also exports, per enum type E, a VALUE E: an object whose keys are exactly E's    *)
+(* values, each mapped to its own name, `as const` (so that E.V has the literal type "V", a member of the type E).  Without   *)
+(* the option no value is exported (the file may be a pure declaration file).                                                   *)
+TopConsts(stmts, n) == {i \in DOMAIN stmts : stmts[i].k = "const" /\ stmts[i].name = n}
+EnumRuntimeItems(S, cfg, stmts) ==
+  UNION {LET cs == TopConsts(stmts, n) vals == EnumValueNames(S, n) IN
+         IF ~cfg.runtime
+         THEN (IF cs = {} THEN {} ELSE {Item("unexpected-runtime", "a runtime value is exported although emitSchemaRuntime is off", [ctx |-> <<n>>])})
+         ELSE IF Cardinality(cs) # 1 THEN {Item("enum-runtime-missing", "emitSchemaRuntime: not exactly one exported const for an enum type", [ctx |-> <<n>>])}
+         ELSE LET c == stmts[CHOOSE i \in cs : TRUE]
+                  keys == {c.obj.props[i].key : i \in DOMAIN c.obj.props}
+              IN IF /\ c.export /\ c.hasInit /\ c.obj.ok /\ c.obj.asConst
+                    /\ keys = vals /\ Len(c.obj.props) = Cardinality(vals)
+                    /\ \A i \in DOMAIN c.obj.props : c.obj.props[i].val = c.obj.props[i].key
+                 THEN {} ELSE {Item("enum-runtime", "the runtime object of an enum does not map exactly its values to themselves (as const)", [ctx |-> <<n>>])}
+        : n \in {m \in UserTypeNames(S) : KindOf(S, m) = "enum"}}
+
 (* ------------------------------------------------------- resolvers file *)
 LocalScope(params) == [file |-> "local", ns |-> "", params |-> params]
 ObjField(o, key) == o.fs[CHOOSE i \in DOMAIN o.fs : o.fs[i].key = key]
